@@ -1509,6 +1509,139 @@ NOT_TRANSLATED = {
 }
 
 
+def key_le(ty, a, b):
+    """Lean Bool `a <= b` for a sort key of the given type (Rust's derived Ord)"""
+    if ty[0] in ("nat", "int", "rat"):
+        return f"decide ({a} ≤ {b})"
+    if ty[0] == "opt" and ty[1][0] == "nat":
+        return f"optNatLe {par(a)} {par(b)}"
+    if ty[0] == "tuple" and len(ty[1]) == 2 and all(t[0] == "nat" for t in ty[1]):
+        return f"decide ({par(a)}.1 < {par(b)}.1 ∨ ({par(a)}.1 = {par(b)}.1 ∧ {par(a)}.2 ≤ {par(b)}.2))"
+    raise TErr(f"sort key of type {ty}")
+
+
+def translate_sort(ctx, repo):
+    """`sort_printed_planes`: one comparison per `-o` letter.  Every arm must have the shape
+         v.sort_by_cached_key(|&(_, p)| KEY);  [v.reverse();]      or
+         v.sort_by(|(_, p), (_, q)| { [let d = |x: &Plane| E;]  A.total_cmp(&B) });  [v.reverse();]"""
+    rel = "src/decoder/planes.rs"
+    fns, _ = R.parse_file(open(os.path.join(repo, rel)).read())
+    fn = next((f for f in fns if f.name == "sort_printed_planes"), None)
+    if fn is None:
+        raise TErr("sort_printed_planes not found")
+    def find_match(node):
+        if isinstance(node, tuple):
+            if node and node[0] == "match" and all(a[0][0] in ("p_lit", "p_wild") for a in node[2]):
+                return node
+            for x in node:
+                r = find_match(x)
+                if r:
+                    return r
+        elif isinstance(node, list):
+            for x in node:
+                r = find_match(x)
+                if r:
+                    return r
+        return None
+    m = find_match(fn.body)
+    if m is None:
+        raise TErr("sort_printed_planes: no match over the key letter")
+    tr = FnTr(ctx, fn)
+    PL = ("struct", "Plane")
+    arms = []
+    for pat, guard, body in m[2]:
+        if pat[0] == "p_wild":
+            stmts = body[1] if body[0] == "block" else [("expr", body)]
+            if stmts or (body[0] == "block" and body[2] is not None):
+                raise TErr("sort_printed_planes: the catch-all arm does something")
+            continue
+        if guard is not None or pat[1][0] != "lit_char":
+            raise TErr("sort_printed_planes: arm pattern")
+        letter = pat[1][1]
+        stmts = list(body[1]) + ([("expr", body[2])] if body[2] is not None else [])
+        if not stmts or len(stmts) > 2:
+            raise TErr(f"sort arm {chr(letter)!r}: expected a sort and an optional reverse")
+        call = stmts[0][1]
+        rev = False
+        if len(stmts) == 2:
+            r = stmts[1][1]
+            if not (r[0] == "mcall" and r[2] == "reverse" and not r[3]):
+                raise TErr(f"sort arm {chr(letter)!r}: second statement is not .reverse()")
+            rev = True
+        if call[0] != "mcall" or call[2] not in ("sort_by_cached_key", "sort_by") or len(call[3]) != 1 or call[3][0][0] != "closure":
+            raise TErr(f"sort arm {chr(letter)!r}: not a sort_by / sort_by_cached_key call")
+        cl = call[3][0]
+        def var_of(p):
+            while p[0] == "p_ref":
+                p = p[1]
+            if p[0] != "p_tuple" or len(p[1]) != 2 or p[1][0][0] != "p_wild" or p[1][1][0] != "p_ident":
+                raise TErr(f"sort arm {chr(letter)!r}: closure parameter")
+            return p[1][1][1]
+        if call[2] == "sort_by_cached_key":
+            v = var_of(cl[1][0])
+            ka, kty = tr.tr(cl[2], {v: PL})
+            kb = ka  # same expression on the other row
+            a, _ = tr.tr(cl[2], {v: PL})
+            le = key_le(kty, a.replace(lname(v) + ".", "p."), a.replace(lname(v) + ".", "q.")) if v != "p" else None
+            if le is None:
+                a_p = a
+                # rename p -> q textually is unsafe; translate again with the other name
+                tr2 = FnTr(ctx, fn)
+                def rename(n):
+                    if isinstance(n, tuple):
+                        if n and n[0] == "path" and n[1] == [v]:
+                            return ("path", ["q"])
+                        return tuple(rename(x) for x in n)
+                    if isinstance(n, list):
+                        return [rename(x) for x in n]
+                    return n
+                b_q, _ = tr2.tr(rename(cl[2]), {"q": PL})
+                le = key_le(kty, a_p, b_q)
+        else:
+            if len(cl[1]) != 2:
+                raise TErr(f"sort arm {chr(letter)!r}: comparator arity")
+            v1, v2 = var_of(cl[1][0]), var_of(cl[1][1])
+            if (v1, v2) != ("p", "q"):
+                raise TErr(f"sort arm {chr(letter)!r}: comparator parameters are not (p, q)")
+            body2 = cl[2]
+            lets = {}
+            if body2[0] == "block":
+                for st in body2[1]:
+                    if st[0] == "let" and st[1][0] == "p_ident" and st[3] is not None and st[3][0] == "closure":
+                        lets[st[1][1]] = st[3]
+                    else:
+                        raise TErr(f"sort arm {chr(letter)!r}: statement in the comparator")
+                body2 = body2[2]
+            if body2 is None or body2[0] != "mcall" or body2[2] != "total_cmp" or len(body2[3]) != 1:
+                raise TErr(f"sort arm {chr(letter)!r}: comparator is not a total_cmp")
+            def side(e):
+                while e[0] in ("unary", "paren"):
+                    e = e[2] if e[0] == "unary" else e[1]
+                if e[0] == "call" and e[1][0] == "path" and len(e[1][1]) == 1 and e[1][1][0] in lets:
+                    c2 = lets[e[1][1][0]]
+                    pv = c2[1][0]
+                    while pv[0] == "p_ref":
+                        pv = pv[1]
+                    arg, aty = tr.tr(e[2][0], {"p": PL, "q": PL})
+                    bt, bty = tr.tr(c2[2], {pv[1]: aty})
+                    return f"(fun {lname(pv[1])} => {bt}) {par(arg)}", bty
+                return tr.tr(e, {"p": PL, "q": PL})
+            a, aty = side(body2[1])
+            b, _ = side(body2[3][0])
+            if aty[0] != "rat":
+                raise TErr(f"sort arm {chr(letter)!r}: total_cmp on {aty}")
+            le = f"decide ({a} ≤ {b})"
+        arms.append((letter, le, rev))
+    out = ["/-- translated from `src/decoder/planes.rs` :: `sort_printed_planes`: the comparison of one `-o` letter and whether the",
+           "    vector is reversed afterwards (`f64::total_cmp` as `≤` on exact values) -/",
+           "def T.sort_key (c : Char) : Option ((T.Plane → T.Plane → Bool) × Bool) :="]
+    txt = "none"
+    for letter, le, rev in reversed(arms):
+        txt = f"if c = '{chr(letter)}' then some (fun p q => {le}, {'true' if rev else 'false'})\n  else {txt}"
+    out.append("  " + txt)
+    return "\n".join(out)
+
+
 def emit_struct(st):
     lines = [f"structure T.{st.name} where"]
     for f, t in st.fields:
@@ -1581,8 +1714,14 @@ def translate_all(repo, header, errors):
             lines.append(f"/-- translated from `{ctx.fns[k].file}` :: `{k}` -/")
             lines.append(bodies[k])
             lines.append("")
+        if out == "TransPlane.lean":
+            try:
+                lines.append(translate_sort(ctx, repo))
+                lines.append("")
+            except (TErr, R.ParseError) as e:
+                errors.append(f"src/decoder/planes.rs :: sort_printed_planes: {e}")
         lines.append(f"/-- the functions of this file, for the bridge-coverage obligation -/")
-        lines.append(f"def T.translated_{out.split('.')[0]} : List String := [" + ", ".join('"' + ctx.lean_name(ctx.fns[k]) + '"' for k in wanted[out]) + "]")
+        lines.append(f"def T.translated_{out.split('.')[0]} : List String := [" + ", ".join(['"' + ctx.lean_name(ctx.fns[k]) + '"' for k in wanted[out]] + (['"T.sort_key"'] if out == "TransPlane.lean" else [])) + "]")
         lines.append("")
         lines.append("end Sq")
         texts[out] = "\n".join(lines) + "\n"
